@@ -787,23 +787,28 @@ class Processor:
         - `YAMLPathException` when the operation would destroy the entire
            document
         """
-        # Refuse to delete the document root BEFORE deleting anything else
-        for check_nc in delete_nodes:
-            check_node = check_nc.node
-            if isinstance(check_node, NodeCoords) or (
-                isinstance(check_node, list) and len(check_node) > 0
-                and isinstance(check_node[0], NodeCoords)
-            ):
-                continue
-            if not isinstance(
-                check_nc.parent, (dict, list, CommentedSet, set)
-            ):
-                raise NoDocumentYAMLPathException(
-                    "Refusing to delete the entire document!  Ensure the"
-                    " source document is YAML, JSON, or compatible and the"
-                    " target nodes do not include the document root.",
-                    str(check_nc.path)
-                )
+        # Refuse to delete the document root BEFORE deleting anything else,
+        # however deeply Collectors have wrapped it
+        def refuse_document_root(check_ncs: List[NodeCoords]) -> None:
+            for check_nc in check_ncs:
+                check_node = check_nc.node
+                if isinstance(check_node, NodeCoords):
+                    refuse_document_root([check_node])
+                    continue
+                if (isinstance(check_node, list) and len(check_node) > 0
+                        and isinstance(check_node[0], NodeCoords)):
+                    refuse_document_root(check_node)
+                    continue
+                if not isinstance(
+                    check_nc.parent, (dict, list, CommentedSet, set)
+                ):
+                    raise NoDocumentYAMLPathException(
+                        "Refusing to delete the entire document!  Ensure the"
+                        " source document is YAML, JSON, or compatible and"
+                        " the target nodes do not include the document root.",
+                        str(check_nc.path)
+                    )
+        refuse_document_root(delete_nodes)
 
         # Deleting one element shifts its successors, so every list must lose
         # its highest index first -- whatever order the nodes were gathered
